@@ -1339,6 +1339,32 @@ class Environment:
 ####################
 
 
+def _find_sample_site(params):
+    """Parameters of the first sampling site found in the jaxprs held by
+    `params` (an equation's parameters), searched recursively; else None."""
+
+    def in_jaxpr(jaxpr):
+        for eqn in jaxpr.eqns:
+            primitive, inner_params = PPPrimitive.unwrap(eqn.primitive)
+            if primitive in (sample_p, adev_sample_p):
+                return inner_params
+            found = _find_sample_site(eqn.params)
+            if found is not None:
+                return found
+        return None
+
+    for value in params.values():
+        for item in value if isinstance(value, (tuple, list)) else (value,):
+            if isinstance(item, ClosedJaxpr):
+                item = item.jaxpr
+            if isinstance(item, Jaxpr):
+                found = in_jaxpr(item)
+                if found is not None:
+                    return found
+    return None
+
+
+
 @dataclass
 class Seed:
     """Interpreter that eliminates probabilistic primitives with explicit randomness.
@@ -1457,6 +1483,13 @@ class Seed:
                 )
 
             else:
+                # A primitive this interpreter does not look into (custom_jvp,
+                # checkpoint, while_loop, nested jit, ...). If its body still
+                # holds a sampling site, evaluating it would draw from hidden
+                # randomness instead of the key: refuse, like the MLIR lowering.
+                nested_site = _find_sample_site(eqn.params)
+                if nested_site is not None and enforce_lowering_exception:
+                    raise nested_site["lowering_exception"]
                 outvals = eqn.primitive.bind(*args, **params)
 
             if not eqn.primitive.multiple_results:
